@@ -39,6 +39,7 @@ type LoopSpec struct {
 	Invariants []Clause
 	Decreases  []Clause
 	Steps      []Clause // checked at every back edge; startTrace(n) is the trace at the head of loop n in the current iteration
+	Exits      []Clause // checked on every edge that leaves the loop (exhaustion or break); exhausted() tells which
 }
 
 type GhostParam struct {
@@ -364,6 +365,8 @@ func parseContractLines(lines []rawLine, fname, pkgPath string, cs *ContractSet)
 				ls.Decreases = append(ls.Decreases, c)
 			case "step":
 				ls.Steps = append(ls.Steps, c)
+			case "exit":
+				ls.Exits = append(ls.Exits, c)
 			default:
 				return fmt.Errorf("%s:%d: unknown loop clause %s", fname, s.line, kind)
 			}
